@@ -294,3 +294,21 @@ Section Bind.
   Qed.
 
 End Bind.
+
+(* C12: a signature that verifies for the current vector does not verify for an earlier, different vector of the same
+   length -- unless that acceptance constructs a hash collision or a discrete-log relation (instance of verify_binding) *)
+Theorem update_old_vector_reduces (E : env) (LW : Laws E) s pk cur old header :
+  suite_ok E ->
+  verify E s pk (Some cur) header = Ok tt ->
+  verify E s pk (Some old) header = Ok tt ->
+  length cur = length old -> cur <> old ->
+  (len (option_default [] header) <= usize_max)%N ->
+  (exists i, (i < length cur)%nat /\ nth i cur [] <> nth i old [] /\ hm E (nth i cur []) = hm E (nth i old [])) \/
+  (exists Q1 H dm dm',
+     DLRelation E LW (Q1 :: H) (fsub (SO E) dm dm' :: zip_sub E (map (hm E) cur) (map (hm E) old)) \/
+     Collision (fun x => f_of_okm (SO E) (expand E x (c_api_id (cs E) ++ c_h2s (cs E)) 48))
+               (dom_input E pk Q1 H header (c_api_id (cs E))) (dom_input E pk Q1 H header (c_api_id (cs E)))).
+Proof.
+  intros Hs V1 V2 Hl Hne Hb.
+  exact (verify_binding E LW s pk cur old header header Hs V1 V2 Hl Hb Hb (or_introl Hne)).
+Qed.
